@@ -23,12 +23,13 @@ import CnvVerif.Driver.Vcf
 import CnvVerif.Driver.VcfExt
 import CnvVerif.Driver.Descriptives
 import CnvVerif.Driver.Haar
+import CnvVerif.Driver.HaarExt
 import CnvVerif.Driver.Stats
 import CnvVerif.Driver.StatsGlue
 open Lean CnvVerif.Drv
 
 def handlers : List (String → Json → Option Json → R (Option Json)) :=
-  [handleInterval, handleCall, handleCallCmd, handleSegFilter, handleSegFilterExt, handleTile, handleCenter, handleSexExt, handleFix, handleAccess, Genes.handleGenes, handleFormats, handleFormatsExt, handleExport, handleExportExt, Reference.handleReference, handleCoverage, handleCoverageExt, handleEffects, handleBins, handleVcf, handleVcfExt, handleDescriptives, Haar.handleHaar, handleStats, handleStatsGlue]
+  [handleInterval, handleCall, handleCallCmd, handleSegFilter, handleSegFilterExt, handleTile, handleCenter, handleSexExt, handleFix, handleAccess, Genes.handleGenes, handleFormats, handleFormatsExt, handleExport, handleExportExt, Reference.handleReference, handleCoverage, handleCoverageExt, handleEffects, handleBins, handleVcf, handleVcfExt, handleDescriptives, Haar.handleHaar, HaarExt.handleHaarExt, handleStats, handleStatsGlue]
 
 def dispatch (op : String) (inp : Json) (impl : Option Json) : R Json := do
   for h in handlers do
